@@ -6,6 +6,7 @@ mod prng;
 mod c07;
 mod c01;
 mod c02;
+mod c20;
 mod cli;
 mod ledger;
 
@@ -69,6 +70,7 @@ fn main() {
         "c01" => c01::run(&o),
         "c02" => c02::run(&o, "C02"),
         "c03" => c02::run(&o, "C03"),
+        "c20" => c20::run(&o),
         _ => {
             eprintln!("unknown property {}", prop);
             std::process::exit(2);
